@@ -270,9 +270,14 @@ class Sandbox(object):
                 os.makedirs(d)
             with open(path, "w") as f:
                 f.write(pre[path][0])
-            ns = (T0 + 1000 * k) * 10 ** 9
+            # ages of the files of a history differ by a millisecond: "newer" is newer whatever the
+            # distance (on a file system that keeps whole seconds only, by 1000 seconds)
+            ns = T0 * 10 ** 9 + 10 ** 6 * k
             os.utime(path, ns=(ns, ns))
-            sentinel[path] = ns
+            if os.stat(path).st_mtime_ns != ns:
+                ns = (T0 + 1000 * k) * 10 ** 9
+                os.utime(path, ns=(ns, ns))
+            sentinel[path] = os.stat(path).st_mtime_ns
         with open(os.path.join(M.TPL_DIR, M.TPL_NAME), "w") as f:
             f.write(M.template_source(kind, inputs["tpl"]))
 
